@@ -290,7 +290,10 @@ func (w *shapeWorld) prepare(c shapeCase) func() error {
 		u := newWallet()
 		run = func() error { _, e := w.n.srv.Balance(ctx, w.signedHash(sh, u, []byte(u.Address()))); return e }
 	case "notary.Data":
-		run = func() error { _, e := w.n.srv.Data(ctx, &pb.Address{Public: addrClass(sh["public"], w.n.wl["A"], w.n.wl["M"])}); return e }
+		run = func() error {
+			_, e := w.n.srv.Data(ctx, &pb.Address{Public: addrClass(sh["public"], w.n.wl["A"], w.n.wl["M"])})
+			return e
+		}
 	case "gossip.Announce", "gossip.Discover":
 		u := newWallet()
 		url := strClass(sh["url"], "localhost:1")
@@ -351,7 +354,10 @@ func (w *shapeWorld) prepare(c shapeCase) func() error {
 		}
 		run = func() error { _, e := w.g.Server().GetVertex(ctx, w.signedHash(sh, w.peer, tip.Hash[:])); return e }
 	case "webhooks.Webhooks":
-		run = func() error { _, e := w.wh.Webhooks(ctx, w.signedHash(sh, newWallet(), []byte("http://localhost:9/hook"))); return e }
+		run = func() error {
+			_, e := w.wh.Webhooks(ctx, w.signedHash(sh, newWallet(), []byte("http://localhost:9/hook")))
+			return e
+		}
 	default:
 		fatal("unknown rpc %s", c.Rpc)
 	}
